@@ -5,7 +5,7 @@
    Per-thread bounded queues use the sequential layer of M-BQ (ideal arithmetic) for byte accounting.
    Definitions only. *)
 From Coq Require Import List NArith Arith Bool.
-From Quill Require Import Queue.BQDefs BT.BTModel.
+From Quill Require Import Queue.BQDefs Queue.UQDefs BT.BTModel.
 Import ListNotations.
 Local Open Scope N_scope.
 
@@ -48,11 +48,14 @@ Record thr := {
   failc : N;                (* failure counter *)
   pend : option ev;         (* statement whose timestamp was taken and that is not enqueued yet *)
   counted : bool;           (* the pending statement already incremented the failure counter *)
-  wflush : option N         (* flush request id the thread is waiting for *)
+  wflush : option N;        (* flush request id the thread is waiting for *)
+  uqs : option uq           (* UnboundedSPSCQueue frontends: the node structure of the thread's queue (M-UQ, sequential layer),
+                               kept in step with every queue call; it decides the backend's per-call read limit
+                               (capacity of the consumer's current node). None = bounded queue. *)
 }.
 Definition thr0 : thr :=
   {| q := bq_init; qev := []; tbuf := []; tcap := 0; texists := false; tvalid := true; failc := 0;
-     pend := None; counted := false; wflush := None |}.
+     pend := None; counted := false; wflush := None; uqs := None |}.
 
 Record lgr := { llevel : N; lsinks : list nat;
                 lbt : option (bt ev);   (* backtrace storage, created by the first InitBacktrace event *)
@@ -146,20 +149,41 @@ Definition gh_reported g n := {| g_denied := g_denied g; g_reported := g_reporte
 Definition gh_lost g n := {| g_denied := g_denied g; g_reported := g_reported g; g_lost := g_lost g + n |}.
 
 Definition set_thr_q (x : thr) q' qev' := {| q := q'; qev := qev'; tbuf := tbuf x; tcap := tcap x; texists := texists x;
-  tvalid := tvalid x; failc := failc x; pend := pend x; counted := counted x; wflush := wflush x |}.
+  tvalid := tvalid x; failc := failc x; pend := pend x; counted := counted x; wflush := wflush x; uqs := uqs x |}.
 Definition set_thr_pend (x : thr) p c := {| q := q x; qev := qev x; tbuf := tbuf x; tcap := tcap x; texists := texists x;
-  tvalid := tvalid x; failc := failc x; pend := p; counted := c; wflush := wflush x |}.
+  tvalid := tvalid x; failc := failc x; pend := p; counted := c; wflush := wflush x; uqs := uqs x |}.
 Definition set_thr_failc (x : thr) n := {| q := q x; qev := qev x; tbuf := tbuf x; tcap := tcap x; texists := texists x;
-  tvalid := tvalid x; failc := n; pend := pend x; counted := counted x; wflush := wflush x |}.
+  tvalid := tvalid x; failc := n; pend := pend x; counted := counted x; wflush := wflush x; uqs := uqs x |}.
 Definition set_thr_tbuf (x : thr) b c := {| q := q x; qev := qev x; tbuf := b; tcap := c; texists := true;
-  tvalid := tvalid x; failc := failc x; pend := pend x; counted := counted x; wflush := wflush x |}.
+  tvalid := tvalid x; failc := failc x; pend := pend x; counted := counted x; wflush := wflush x; uqs := uqs x |}.
 Definition set_thr_valid (x : thr) v := {| q := q x; qev := qev x; tbuf := tbuf x; tcap := tcap x; texists := texists x;
-  tvalid := v; failc := failc x; pend := pend x; counted := counted x; wflush := wflush x |}.
+  tvalid := v; failc := failc x; pend := pend x; counted := counted x; wflush := wflush x; uqs := uqs x |}.
 Definition set_thr_wflush (x : thr) w := {| q := q x; qev := qev x; tbuf := tbuf x; tcap := tcap x; texists := texists x;
-  tvalid := tvalid x; failc := failc x; pend := pend x; counted := counted x; wflush := w |}.
+  tvalid := tvalid x; failc := failc x; pend := pend x; counted := counted x; wflush := w; uqs := uqs x |}.
+
+Definition set_thr_uqs (x : thr) (v : option uq) := {| q := q x; qev := qev x; tbuf := tbuf x; tcap := tcap x; texists := texists x;
+  tvalid := tvalid x; failc := failc x; pend := pend x; counted := counted x; wflush := wflush x; uqs := v |}.
+
+(* a fresh thread context: bounded queue (v = None) or unbounded queue with any node structure *)
+Definition fresh_thr (x : thr) : Prop := exists v, x = set_thr_uqs thr0 v.
 
 Section BE.
 Variable K : cfg.
+
+(* the unbounded queue's node structure follows every call made on the thread's queue (maximum capacity 2^31,
+   5 % publish batches, re-check and commit-before-delete as in the source: those are C02's facts) *)
+Definition UMAX : N := 2 ^ 31.
+Definition u_write (n : N) (u : uq) : uq :=
+  let (u1, r) := uq_prepare_write UMAX u n in
+  match r with WSome _ => uq_commit_write (uq_finish_write u1 n) | _ => u1 end.
+Definition u_prepare_read (u : uq) : uq := fst (uq_prepare_read 5 (c_pub K) true true u).
+Definition u_finish_read (n : N) (u : uq) : uq := uq_finish_read u n.
+Definition u_commit_read (u : uq) : uq := uq_commit_read 5 (c_pub K) u.
+Definition u_empty (u : uq) : uq := fst (uq_empty u).
+Definition sh (f : uq -> uq) (x : thr) : thr := set_thr_uqs x (option_map f (uqs x)).
+(* _read_and_decode_frontend_queue reads at most frontend_queue.capacity() bytes per call: the capacity of the
+   bounded queue, or of the node the consumer is on *)
+Definition read_limit (x : thr) : N := match uqs x with Some u => capacity u | None => c_cap K end.
 
 Definition memb (t : nat) (l : list nat) : bool := existsb (Nat.eqb t) l.
 
@@ -233,7 +257,7 @@ Definition fstep (s : st) (o : fop) : st :=
             let s := match ekind e with
                      | KInitBt _ fl => set_lg s (upd (lg s) (elg e) (set_lbtlvl (lg s (elg e)) fl))
                      | _ => s end in
-            let s' := set_th s (upd (th s) t x'') in
+            let s' := set_th s (upd (th s) t (sh (u_write (esz e)) x'')) in
             {| clock := clock s'; th := th s'; registered := registered s'; newflag := newflag s';
                invalid_cnt := invalid_cnt s'; cache := cache s'; pc := pc s'; tsnow := tsnow s'; lg := lg s'; sk := sk s';
                nsinks := nsinks s'; nloggers := nloggers s'; lastfl := lastfl s'; flags := flags s'; obs := obs s';
@@ -296,12 +320,12 @@ Definition fmt_notes (e : ev) : list N :=
 
 (* consumer-side empty() on a thread's queue (reloads the cached writer position) *)
 Definition q_empty (x : thr) : thr * bool :=
-  let (q1, e) := empty (q x) in (set_thr_q x q1 (qev x), e).
+  let (q1, e) := empty (q x) in (sh u_empty (set_thr_q x q1 (qev x)), e).
 
 (* _read_and_decode_frontend_queue for one thread context (the do..while loop).
    Returns the new thread record, bytes read, notifier observations, and whether a non-std exception
    escaped (only possible when the source lacks the catch-all: the record is then not consumed). *)
-Fixpoint read_loop (fuel : nat) (tn : N) (x : thr) (total : N) (notes : list N) : thr * N * list N * bool :=
+Fixpoint read_loop (fuel : nat) (lim : N) (tn : N) (x : thr) (total : N) (notes : list N) : thr * N * list N * bool :=
   match fuel with
   | O => (x, total, notes, false)
   | S f =>
@@ -311,26 +335,27 @@ Fixpoint read_loop (fuel : nat) (tn : N) (x : thr) (total : N) (notes : list N) 
         (* back(): the buffer expands when full, before anything else *)
         let cap1 := if tcap x =? N.of_nat (length (tbuf x)) then 2 * tcap x else tcap x in
         if negb (c_grace K =? 0) && (tn <? ets e)
-        then (set_thr_tbuf (set_thr_q x q1 (qev x)) (tbuf x) cap1, total, notes, false)
+        then (sh u_prepare_read (set_thr_tbuf (set_thr_q x q1 (qev x)) (tbuf x) cap1), total, notes, false)
         else
           match efmt e, ekind e, c_catch_all K with
           | FOtherThrow, (KLog | KInitBt _ _ | KFlushBt), false =>
-              (set_thr_tbuf (set_thr_q x q1 (qev x)) (tbuf x) cap1, total, notes, true)
+              (sh u_prepare_read (set_thr_tbuf (set_thr_q x q1 (qev x)) (tbuf x) cap1), total, notes, true)
           | _, _, _ =>
-              let x1 := set_thr_tbuf (set_thr_q x (finish_read ideal q1 (esz e)) rest) (tbuf x ++ [e]) cap1 in
+              let x1 := sh (fun u => u_finish_read (esz e) (u_prepare_read u))
+                           (set_thr_tbuf (set_thr_q x (finish_read ideal q1 (esz e)) rest) (tbuf x ++ [e]) cap1) in
               let total' := total + esz e in
               let notes' := notes ++ fmt_notes e in
-              if (total' <? c_cap K) && (N.of_nat (length (tbuf x1)) <? c_hard K)
-              then read_loop f tn x1 total' notes'
+              if (total' <? lim) && (N.of_nat (length (tbuf x1)) <? c_hard K)
+              then read_loop f lim tn x1 total' notes'
               else (x1, total', notes', false)
           end
-    | _, _ => (set_thr_q x q1 (qev x), total, notes, false)
+    | _, _ => (sh u_prepare_read (set_thr_q x q1 (qev x)), total, notes, false)
     end
   end.
 
 Definition read_queue (tn : N) (x : thr) : thr * list N * bool :=
-  let '(x1, total, notes, esc) := read_loop (S (length (qev x))) tn x 0 [] in
-  let x2 := if total =? 0 then x1 else set_thr_q x1 (commit_read ideal (c_batch K) (c_pub K) (q x1)) (qev x1) in
+  let '(x1, total, notes, esc) := read_loop (S (length (qev x))) (read_limit x) tn x 0 [] in
+  let x2 := if total =? 0 then x1 else sh u_commit_read (set_thr_q x1 (commit_read ideal (c_batch K) (c_pub K) (q x1)) (qev x1)) in
   (x2, notes, esc).
 
 (* the sinks flushed by _flush_and_run_active_sinks: sinks of (valid) loggers, unique, logger order *)
@@ -397,7 +422,7 @@ Fixpoint find_dead (s : st) (l : list nat) : st * option nat :=
   end.
 Definition destroy (x : thr) : thr :=
   {| q := bq_init; qev := []; tbuf := []; tcap := 0; texists := false; tvalid := false; failc := 0;
-     pend := pend x; counted := counted x; wflush := wflush x |}.
+     pend := pend x; counted := counted x; wflush := wflush x; uqs := uqs x |}.
 Definition remove_nat (u : nat) (l : list nat) := filter (fun v => negb (Nat.eqb v u)) l.
 Fixpoint cleanup_loop (fuel : nat) (s : st) : st :=
   match fuel with
